@@ -116,6 +116,7 @@ Definition mism (c : case) : verdict :=
   | None => if k_new_ok c then VMismatch 0 "model rejects, implementation accepts" else VOk
   | Some h =>
     if negb (k_new_ok c) then VMismatch 0 "model accepts, implementation rejects"
+    else if negb (names_distinct (Dir (k_pre c))) then VMismatch 1 "input root has duplicate names"
     else
       let '(ok, mid) := mk_parents (h_root h) (k_pre c) in
       if negb (Bool.eqb ok (k_mk_ok c)) then VMismatch 1 "CreateParentDirectories error"
